@@ -1,5 +1,6 @@
 (* C06 - property theorems only (proofs in Manager/AckProofs.v) *)
 From VT Require Import Manager.Manager Manager.ManagerProofs Check.C06Check Manager.AckProofs.
+From VT Require Import Manager.AckOverlap Manager.AckOverlapProofs.
 From Coq Require Import Sorted.
 Open Scope N_scope.
 
@@ -109,3 +110,84 @@ Theorem C06_call_result :
      else if (List.length args =? 1)%nat then hd PNone args else PNone).
 Proof. exact C06_call_result_thm. Qed.
 Print Assumptions C06_call_result.
+
+(* ---- overlapping call()s / emits with a callback (Manager/AckOverlap.v) ----
+   events: EStart k (register + frame handed to the transport), ESent k (the send completes), EAck sid id args,
+   ETimeout k, EDisc sid, in any order.  `ostep`/`orun` = the model of the code over the manager's table;
+   `sstep`/`srun`/`sfinal` = the specification over an abstract table (client, id) -> operation. *)
+
+(* on EVERY schedule the model's observations are accepted by the specification *)
+Theorem C06_overlap_model_meets_spec : forall clients evs,
+  srun (sinit clients) evs (snd (orun (oinit clients) evs)) 0 = 0%nat.
+Proof. exact C06_overlap_model_meets_spec_thm. Qed.
+Print Assumptions C06_overlap_model_meets_spec.
+
+Theorem C06_overlap_sim_step : forall o s e,
+  Sim o s -> exists s', sstep s e (snd (ostep o e)) = Some s' /\ Sim (fst (ostep o e)) s'.
+Proof. exact sim_step. Qed.
+Print Assumptions C06_overlap_sim_step.
+
+(* the timeout of one operation never touches the table: not in the model, not in the specification *)
+Theorem C06_overlap_timeout_keeps_table :
+  (forall st k, o_mg (fst (ostep st (ETimeout k))) = o_mg st) /\
+  (forall s k obs s', sstep s (ETimeout k) obs = Some s' -> s_out s' = s_out s /\ s_live s' = s_live s).
+Proof. exact C06_overlap_timeout_keeps_table_thm. Qed.
+Print Assumptions C06_overlap_timeout_keeps_table.
+
+(* every state reached by an accepted observation sequence: unacknowledged operations of connected clients are
+   in the table under their own (client, id), and every entry of the table is such an operation *)
+Theorem C06_overlap_spec_invariant : forall clients evs obs s,
+  sfinal (sinit clients) evs obs = Some s -> SInv s.
+Proof. exact SInv_reach. Qed.
+Print Assumptions C06_overlap_spec_invariant.
+
+Theorem C06_overlap_call_returns_its_ack : forall clients evs obs s,
+  sfinal (sinit clients) evs obs = Some s ->
+  forall k t args o s',
+  aget N.eqb (s_tasks s) k = Some t -> t_kind t = KCall -> t_phase t = PWaiting -> t_got t = None ->
+  memb_str (t_sid t) (s_live s) = true ->
+  sstep s (EAck (t_sid t) (t_id t) args) o = Some s' ->
+  o = [XDone k (Ok (call_result args))].
+Proof. exact C06_overlap_call_returns_its_ack_thm. Qed.
+Print Assumptions C06_overlap_call_returns_its_ack.
+
+Theorem C06_overlap_call_ack_during_send : forall clients evs obs s,
+  sfinal (sinit clients) evs obs = Some s ->
+  forall k t args o s' o2 s2,
+  aget N.eqb (s_tasks s) k = Some t -> t_kind t = KCall -> t_phase t = PSending -> t_got t = None ->
+  memb_str (t_sid t) (s_live s) = true ->
+  sstep s (EAck (t_sid t) (t_id t) args) o = Some s' -> sstep s' (ESent k) o2 = Some s2 ->
+  o = [] /\ o2 = [XDone k (Ok (call_result args))].
+Proof. exact C06_overlap_call_ack_during_send_thm. Qed.
+Print Assumptions C06_overlap_call_ack_during_send.
+
+Theorem C06_overlap_emit_callback_its_ack : forall clients evs obs s,
+  sfinal (sinit clients) evs obs = Some s ->
+  forall k t args o s',
+  aget N.eqb (s_tasks s) k = Some t -> t_kind t = KEmit -> t_got t = None ->
+  memb_str (t_sid t) (s_live s) = true ->
+  sstep s (EAck (t_sid t) (t_id t) args) o = Some s' ->
+  o = [XCb k args].
+Proof. exact C06_overlap_emit_callback_its_ack_thm. Qed.
+Print Assumptions C06_overlap_emit_callback_its_ack.
+
+Theorem C06_overlap_only_own : forall clients evs obs s,
+  sfinal (sinit clients) evs obs = Some s ->
+  forall sid id args o s',
+  sstep s (EAck sid id args) o = Some s' -> o <> [] ->
+  exists k t, aget N.eqb (s_tasks s) k = Some t /\ t_sid t = sid /\ t_id t = id /\ t_got t = None /\
+              (o = [XCb k args] \/ o = [XDone k (Ok (call_result args))]).
+Proof. exact C06_overlap_only_own_thm. Qed.
+Print Assumptions C06_overlap_only_own.
+
+Theorem C06_overlap_at_most_once : forall s sid id args o s' args2 o2 s2,
+  sstep s (EAck sid id args) o = Some s' -> sstep s' (EAck sid id args2) o2 = Some s2 -> o2 = [].
+Proof. exact C06_overlap_at_most_once_thm. Qed.
+Print Assumptions C06_overlap_at_most_once.
+
+Theorem C06_overlap_timeout_raises : forall s k t o s',
+  aget N.eqb (s_tasks s) k = Some t -> t_kind t = KCall -> t_phase t = PWaiting ->
+  sstep s (ETimeout k) o = Some s' ->
+  o = [XDone k (Err TimeoutError)] /\ s_out s' = s_out s.
+Proof. exact C06_overlap_timeout_raises_thm. Qed.
+Print Assumptions C06_overlap_timeout_raises.
